@@ -141,6 +141,18 @@ func (c *Chain) onEpochBoundary(ended common.Epoch) {
 	if ejected > 0 {
 		c.Stats.Inc("epochs_with_ejections")
 		c.Stats.Add("validators_ejected", ejected)
+		c.Stats.Max("max_ejections_in_one_epoch", ejected)
+		if ejected > int(sp.GetChurnLimit(uint64(len(c.Epc.PreviousEpoch.ActiveIndices)))) {
+			c.Stats.Inc("epochs_ejections_exceed_churn")
+		}
+	}
+	for i := range flats {
+		f := &flats[i]
+		if f.Slashed && f.WithdrawableEpoch >= ended && f.WithdrawableEpoch <= cur {
+			// processed by an epoch transition with withdrawable_epoch == current epoch / == previous+1
+			c.Stats.Inc("slashed_reaching_withdrawable_epoch")
+			c.Stats.Inc("slashed_reaching_withdrawable_epoch_" + c.forkAtEpoch(cur-1).String())
+		}
 	}
 	if activated > 0 {
 		c.Stats.Inc("epochs_with_activations")
